@@ -23,6 +23,13 @@ INVARIANT Inv_C18_OffMeansNever
 INVARIANT Inv_C18_AsleepMeansFrozen
 INVARIANT Inv_C18_NoIdleUnlessAllAsleep
 INVARIANT Inv_C03_TotalIsSumOfLevels
+INVARIANT Inv_C03_BudgetHard
+INVARIANT Inv_C03_TotalEqualsCalls
+INVARIANT Inv_C03_RequestsSplit
+INVARIANT Inv_G_ClockNotAhead
+INVARIANT Inv_G_ClockInSync
+INVARIANT Inv_G_SinceSproutRawNonNeg
+INVARIANT Inv_G_SinceSproutBounded
 PROPERTY Act_C05_NoSproutAfterGsc
 PROPERTY Act_C06_InactiveFrozen
 PROPERTY Act_C06_StopCauses
